@@ -9,9 +9,18 @@ use std::collections::VecDeque;
 use std::ops::Range;
 use std::rc::Rc;
 use std::sync::atomic::Ordering;
+#[cfg(not(raindb_verif))]
 use std::sync::mpsc::TrySendError;
+#[cfg(not(raindb_verif))]
 use std::sync::{mpsc, Arc};
+#[cfg(not(raindb_verif))]
 use std::thread::{self, JoinHandle};
+#[cfg(raindb_verif)]
+use raindb_verif_rt::mpsc::{self, TrySendError};
+#[cfg(raindb_verif)]
+use raindb_verif_rt::thread::{self, JoinHandle};
+#[cfg(raindb_verif)]
+use std::sync::Arc;
 use std::time::{Duration, Instant};
 
 use crate::compaction::errors::CompactionWorkerError;
